@@ -665,7 +665,11 @@ RecoverRec ==
                  /\ UNCHANGED <<tabs, lastEnacted, applied>>
        ELSE /\ rcv' = [rcv EXCEPT !.f = @ + 1, !.r = 0]           \* next file
             /\ UNCHANGED <<tabs, lastEnacted, applied>>
-    /\ UNCHANGED <<hist, logical, calls, queue, nextCid, covl, lw, nextRid, logs, pool, nextLogId, rpos, lovl, cw,
+    \* replay_next syncs a file before its first record is read (repair 7156d81; the necessity config
+    \* "replay_unsynced" leaves it as it was: a power loss during recovery can then tear a transaction)
+    /\ logs' = IF rcv.r = 0 /\ SyncWal /\ "replay_unsynced" \notin Mut
+               THEN [logs EXCEPT ![rcv.f].syn = TRUE] ELSE logs
+    /\ UNCHANGED <<hist, logical, calls, queue, nextCid, covl, lw, nextRid, pool, nextLogId, rpos, lovl, cw,
                    dtabs, flushedCq, durable, mode, ncrash, naux, lastRec, rdr, cur>>
     /\ NoLog
 
